@@ -672,6 +672,7 @@ func (vc *VC) execInstr(fr *Frame, b *ssa.BasicBlock, ins ssa.Instruction) {
 		}
 		if fr.isRoot {
 			vc.smoke(fmt.Sprintf("return%d", len(fr.rets)+1))
+			vc.rootReturn(fr, vals)
 		}
 		fr.rets = append(fr.rets, retInfo{st: vc.st.clone(), vals: vals})
 	default:
@@ -1095,4 +1096,33 @@ func (vc *VC) ix(off, i string) string {
 			"(assert (forall ((a (_ BitVec 64)) (b (_ BitVec 64))) (! (= (ix a b) (bvadd a b)) :pattern ((ix a b)))))")
 	}
 	return "(ix " + off + " " + i + ")"
+}
+
+// rootReturn checks the postconditions of the function under verification at one
+// return site (one obligation per clause and return keeps queries small).
+func (vc *VC) rootReturn(fr *Frame, results []SV) {
+	fi := fr.fi
+	if fi == nil {
+		return
+	}
+	eargs := append(append([]SV{}, vc.clauseArgsEntry(fr)...), results...)
+	for i, en := range fi.C.Ensures {
+		g := vc.evalClause(en.GoName, fi.C.Pkg, eargs, vc.st, vc.entry)
+		tag := ""
+		if len(en.Tags) > 0 {
+			tag = "[" + strings.Join(en.Tags, ",") + "]"
+		}
+		vc.oblige("ensures"+tag+":"+clauseLabel(en, i), en.Tags, g)
+	}
+	if len(vc.st.Locks) > 0 {
+		if _, holds := fi.C.Attrs["holds"]; !holds {
+			vc.oblige("lock:held-at-return", []string{"C08"}, "false")
+		}
+	}
+}
+
+// clauseArgsEntry: the arguments of pre/postcondition clauses are the entry values
+// of the parameters (and the current values of captured variables).
+func (vc *VC) clauseArgsEntry(fr *Frame) []SV {
+	return vc.clauseArgsFrame(fr)
 }
